@@ -1725,20 +1725,20 @@ MANIFEST = {
     "design_ref": "DESIGN.md 4/C08",
 }
 FINDINGS = [
-    {"status": "fixed", "key": "reserved-type-variable-name:KeyError", "commit": "fbdb1a0",
+    {"status": "fixed", "key": "reserved-type-variable-name:KeyError", "commit": "145d167",
      "what": "parse_term(\"(x::?'_t1) = (y::?'_t0) & f x & f y\"): KeyError - a user type variable whose name starts with _t is taken for "
              "one of type_infer's internal variables (is_internal_type is name.startswith('_t'))"},
-    {"status": "fixed", "key": "reserved-type-variable-name:ValueError", "commit": "fbdb1a0",
+    {"status": "fixed", "key": "reserved-type-variable-name:ValueError", "commit": "145d167",
      "what": "parse_term(\"(x::?'_tx) = y\"): ValueError from int('x')"},
-    {"status": "fixed", "key": "reserved-type-variable-name:accepted", "commit": "fbdb1a0",
+    {"status": "fixed", "key": "reserved-type-variable-name:accepted", "commit": "145d167",
      "what": "with x :: ?'_t0 declared in the context, `x = y & y` is accepted and gives x the type bool (declared type not respected)"},
-    {"status": "fixed", "key": "defs-head-annotation-overwritten", "commit": "a7afcf9",
+    {"status": "fixed", "key": "defs-head-annotation-overwritten", "commit": "12adf30",
      "what": "under Context(defs={f: nat => nat}) the annotation in `(f::bool => bool) x = x` is replaced by nat => nat "
              "(or a typable definition is rejected with a clash)"},
-    {"status": "fixed", "key": "occurs-check-escaped", "commit": "9a9993c",
+    {"status": "fixed", "key": "occurs-check-escaped", "commit": "01d352f",
      "what": "type_infer on `x y & y z & z x` (any occurs-check cycle through a third variable): union() updated reach only for the merged "
              "class, the cycle was not detected and the final substitution loop grew the types until RecursionError"},
-    {"status": "fixed", "key": "type-constructor-arity-mismatch", "commit": "12fffad",
+    {"status": "fixed", "key": "type-constructor-arity-mismatch", "commit": "06c067b",
      "what": "type_infer on `(x::(nat,nat) list) = (y::nat list)`: IndexError, and with the sides swapped a result that fails "
              "checked_get_type (unify ignored surplus type arguments)"},
 ]
